@@ -39,6 +39,9 @@ use worterbuch_common::{
     format_path,
 };
 
+#[cfg(feature = "verif")]
+mod verif;
+
 type Tree<K, V> = HashMap<RegularKeySegment, Node<K, V>>;
 type SubscribersTree = HashMap<RegularKeySegment, SubscribersNode>;
 
